@@ -76,6 +76,8 @@ type Case struct {
 	Parts   int   `json:"parts"`
 	NBatch  int   `json:"nbatch"`
 	Seed    int64 `json:"seed"`
+
+	slow int // deadline multiplier (second attempt after a time-out)
 }
 
 // --- lines (read by spec/records/RecordsCheck.tla) ----------------------------------------------
@@ -134,16 +136,17 @@ type Wire struct {
 }
 
 type Line struct {
-	ID     string   `json:"id"`
-	Dir    string   `json:"dir"`
-	Path   string   `json:"path"`
-	PV     int      `json:"pv"`
-	FV     int      `json:"fv"`
-	Fmt    int      `json:"fmt"`
-	Codec  int      `json:"codec"`
-	Tags   []string `json:"tags"`
-	Err    string   `json:"err"`    // error returned by the library ("" none)
-	Harness string  `json:"harness"` // driver-side problem: the line is not a verdict about the code
+	ID      string   `json:"id"`
+	Dir     string   `json:"dir"`
+	Path    string   `json:"path"`
+	PV      int      `json:"pv"`
+	FV      int      `json:"fv"`
+	Fmt     int      `json:"fmt"`
+	Codec   int      `json:"codec"`
+	Tags    []string `json:"tags"`
+	Err     string   `json:"err"`     // error returned by the library ("" none)
+	Harness string   `json:"harness"` // driver-side problem: the line is not a verdict about the code
+	Retried bool     `json:"retried"` // the first attempt timed out; this is the second one with deadlines three times as long
 
 	// produce
 	In   []RecIn `json:"in"`
@@ -161,17 +164,18 @@ type Line struct {
 }
 
 type PoolRes struct {
-	G        int      `json:"g"`
-	Decodes  int      `json:"decodes"`  // fetch responses decoded
-	Records  int      `json:"records"`  // records seen
-	Held     int      `json:"held"`     // key/value handles read only after later decodes
-	MaxHeld  int      `json:"maxHeld"`  // handles outstanding at once (maximum over goroutines)
-	Verified int      `json:"verified"` // byte strings compared with the pattern of their offset
-	Bad      int      `json:"bad"`      // of which different
-	Errors   int      `json:"errors"`
-	ErrText  string   `json:"errText"`
-	Double   int      `json:"double"`  // handles closed twice
-	Samples  []PoolOb `json:"samples"` // every bad observation (first 20) and a sample of good ones
+	G         int      `json:"g"`
+	Decodes   int      `json:"decodes"`   // fetch responses decoded
+	Records   int      `json:"records"`   // records seen
+	Held      int      `json:"held"`      // key/value handles read only after later decodes
+	MaxHeld   int      `json:"maxHeld"`   // handles outstanding at once (maximum over goroutines)
+	Verified  int      `json:"verified"`  // byte strings compared with the pattern of their offset
+	Bad       int      `json:"bad"`       // of which different
+	Errors    int      `json:"errors"`    // decoding / reading errors
+	NetErrors int      `json:"netErrors"` // fetches that timed out (machine load); repeated, never judged
+	ErrText   string   `json:"errText"`
+	Double    int      `json:"double"`  // handles closed twice
+	Samples   []PoolOb `json:"samples"` // every bad observation (first 20) and a sample of good ones
 }
 
 // PoolOb is one observed key or value of the pool run with the offset it belongs to.
@@ -255,6 +259,14 @@ func errText(err error) string {
 		s = s[:300]
 	}
 	return s
+}
+
+// wait scales a deadline for the second attempt of a case.
+func (c *Case) wait(d time.Duration) time.Duration {
+	if c.slow > 1 {
+		return d * time.Duration(c.slow)
+	}
+	return d
 }
 
 func newLine(c *Case) *Line {
